@@ -1553,11 +1553,19 @@ impl<'a, T, L: Layout> TensorBase<CowData<'a, T>, L> {
         T: Clone,
     {
         match self.data {
-            CowData::Owned(data) => TensorBase {
-                data,
-                layout: self.layout,
-            },
-            CowData::Borrowed(_) => {
+            // `CowData` is immutable storage, so an owned copy-on-write tensor
+            // may have a layout with internal overlap (eg. when created via
+            // `from_storage_and_layout`). Such a layout must not be moved into
+            // a mutable tensor, so those tensors are copied instead.
+            CowData::Owned(data)
+                if !may_have_internal_overlap(self.layout.shape(), self.layout.strides()) =>
+            {
+                TensorBase {
+                    data,
+                    layout: self.layout,
+                }
+            }
+            _ => {
                 let data = self.to_vec_in(alloc);
                 let layout = L::from_shape(self.shape());
                 TensorBase { data, layout }
